@@ -371,6 +371,26 @@ Fixpoint run_stopbreak (s : state) (sched : list nat) : option state :=
               end
   end.
 
+(* The (wrong) variant in which uv__async_io tests h->async_cb == NULL before the exchange
+   ("nothing to run, don't bother with the atomic"): a handle without a callback keeps its
+   pending flag. *)
+Definition step_nullfirst (s : state) (tid : nat) : option state :=
+  match tid, l_pc (lp s), l_queue (lp s) with
+  | O, LScan, h :: q =>
+    if has_cb (hs s h) then step s tid
+    else Some (scan_next true (with_lst (with_lp s (set_queue q (lp s))) (lst s ++ [h])))
+  | _, _, _ => step s tid
+  end.
+
+Fixpoint run_nullfirst (s : state) (sched : list nat) : option state :=
+  match sched with
+  | [] => Some s
+  | t :: r => match step_nullfirst s t with
+              | Some s' => run_nullfirst s' r
+              | None => None
+              end
+  end.
+
 (* Initial state: n handles (numbers 0..n-1) initialised on a fresh loop (handle k with a
    callback iff [hascb k]; a handle created with a NULL callback is a pure waker), eventfd counter
    e0, the scripts of the loop thread and of the senders, the behaviour of the callbacks.
